@@ -111,6 +111,12 @@ theorem assemble_patches_id (cs : CS) (hcs : cs.ok) (hd : cs.dim = .d2) (n0 n1 :
     assemble (axesOf cs n0 n1 rel).1 (axesOf cs n0 n1 rel).2 = baseGrid (axesOf cs n0 n1 rel).1 (axesOf cs n0 n1 rel).2 :=
   assemble_axesOf cs hcs hd n0 n1 hn0 hn1 rel h0 h1
 
+/-- GUARD of the model's `hstack` (`zipWith (++)`, which would silently truncate where `np.hstack` raises on unequal row
+counts): in `assemble` every strip is stacked from pieces with the SAME number of rows — the number of rows of the interior
+of row-patch `i`, independent of the column patch `j` — so numpy's error path is never taken and no truncation happens. -/
+theorem hstack_rows_agree (a0 a1 : Axis) (i j : Nat) : (pieceImg a0 a1 i j).length = (a0.piece i).length := by
+  rw [pieceImg_eq]; simp [grid]
+
 /-- the advertised voxel corners (`global_corners_voxels`: `cornerLo = i·pv`, `cornerHi = min(N, (i+1)·pv)`) delimit the
 interior of the patch, whatever the overlap, for every patch that starts inside the image; and the patch WITH overlap is
 the block `[max(cornerLo − ov, 0), min((i+1)·pv + ov, N))` (`patch_is_subimage`). -/
